@@ -75,6 +75,16 @@ class Inputs:
     def wf(self):
         return And(*self.cons)
 
+    def size_term(self):
+        """total size of an input assignment (sum of string lengths and integers), 16 bits"""
+        tot = bv(0, 16)
+        for b in self.strs.values():
+            tot = tot + z3.ZeroExt(16 - LB, b.n)
+        for v, bits in self.ints.values():
+            if bits > 1:
+                tot = tot + z3.ZeroExt(16 - bits, v)
+        return tot
+
     def all_vars(self):
         vs = []
         for b in self.strs.values():
@@ -237,7 +247,7 @@ def race(path, timeout, solvers, wait_all=False):
     for sname in solvers:
         of = tempfile.TemporaryFile(mode="w+")
         procs[sname] = (subprocess.Popen(SOLVERS[sname](path, timeout), stdout=of, stderr=subprocess.STDOUT,
-                                         preexec_fn=os.setsid), of)
+                                         start_new_session=True), of)
     results = {}
     while procs and time.time() - t0 < timeout + 15:
         for sname in list(procs):
@@ -248,8 +258,14 @@ def race(path, timeout, solvers, wait_all=False):
                 of.close()
                 results[sname] = (v, model, time.time() - t0, note or ("timeout" if v == "unknown" else ""))
                 del procs[sname]
-        if not wait_all and any(r[0] in ("sat", "unsat") for r in results.values()):
+        done = [r for r in results.values() if r[0] in ("sat", "unsat")]
+        if done and not wait_all:
             break
+        if done and wait_all:
+            # a second opinion gets at most 10 s + twice the time of the first answer
+            t1 = min(r[2] for r in done)
+            if time.time() - t0 > t1 + max(10.0, 2 * t1):
+                break
         time.sleep(0.05)
     for sname, (p, of) in procs.items():
         try:
